@@ -11,6 +11,8 @@ import traceback
 def main():
     path = sys.argv[1]
     d = json.load(open(path))
+    if "--primed" in sys.argv[2:]:
+        d["_primed"] = True
     from .common import add_repo_paths
 
     add_repo_paths()
@@ -25,6 +27,8 @@ def main():
     except Exception:
         traceback.print_exc()
         sys.exit(2)
+    if reproduced and d.get("_primed"):
+        text = "after the history priming of this check (a same-named but different schema / an earlier call in the same process): " + text
     print(("REPRODUCED: " if reproduced else "not reproduced: ") + text)
     sys.exit(1 if reproduced else 0)
 
